@@ -77,34 +77,34 @@ Ltac kind_of H :=
   end; clear H1.
 
 Lemma loop_equiv exec : forall n script, length script <= n -> forall pend taken acc,
-  obs gen_worker_run_ix_result (interp script (gen_worker_run_loop1 exec (S n) kdone (VNone, pval pend)) (mkg taken acc 0))
+  obs gen_worker_run_ix_pending (interp script (gen_worker_run_loop1 exec (S n) kdone (VNone, pval pend)) (mkg taken acc 0))
   = mobs (fold_left (step exec true) script (mkw PTop pend taken acc 0)).
 Proof.
   induction n as [|n IH]; intros script Hlen pend taken acc.
   - destruct script; [|cbn in Hlen; lia]. destruct pend; reflexivity.
-  - remember (S n) as m eqn:Em. cbn [gen_worker_run_loop1]. subst m. rewrite interp_vis, (run_next exec KStop) by reflexivity. cbn [kind_of_query].
+  - remember (S n) as m eqn:Em. cbn -[obs mobs]. subst m. rewrite interp_vis, (run_next exec KStop) by reflexivity. cbn [kind_of_query].
     destruct (next_of KStop script) as [[a1 r1]|] eqn:E1; [|destruct pend; reflexivity].
     kind_of E1.
     + (* stop is set: leave the loop *)
-      cbn -[gen_worker_run_loop1]. rewrite interp_done. rewrite (run_exit exec r1 _ false) by reflexivity. destruct pend; reflexivity.
+      cbn -[gen_worker_run_loop1 obs mobs]. rewrite interp_done. rewrite (run_exit exec r1 _ false) by reflexivity. destruct pend; reflexivity.
     + (* not set *)
       destruct pend as [r|]; cbn [pval truthy negb is_none answer_of upd].
       * (* a result is pending: send it *)
-        cbn -[gen_worker_run_loop1]. rewrite interp_vis, (run_next exec KPut) by reflexivity. cbn [kind_of_query].
+        cbn -[gen_worker_run_loop1 obs mobs]. rewrite interp_vis, (run_next exec KPut) by reflexivity. cbn [kind_of_query].
         destruct (next_of KPut r1) as [[a2 r2]|] eqn:E2; [|reflexivity].
         kind_of E2.
         -- (* accepted: go on to take a job *)
-           cbn -[gen_worker_run_loop1]. rewrite interp_vis, (run_next exec KGet) by reflexivity. cbn [kind_of_query].
+           cbn -[gen_worker_run_loop1 obs mobs]. rewrite interp_vis, (run_next exec KGet) by reflexivity. cbn [kind_of_query].
            destruct (next_of KGet r2) as [[a3 r3]|] eqn:E3; [|reflexivity].
-           kind_of E3; cbn -[gen_worker_run_loop1].
+           kind_of E3; cbn -[gen_worker_run_loop1 obs mobs].
            ++ rewrite (IH r3 ltac:(lia) (Some (exec j))). reflexivity.
            ++ rewrite (IH r3 ltac:(lia) None). reflexivity.
            ++ rewrite interp_act, interp_done. rewrite (run_exit exec r3 _ true) by reflexivity. reflexivity.
         -- (* queue full: retry from the top with the result still pending *)
-           cbn -[gen_worker_run_loop1]. rewrite (IH r2 ltac:(lia) (Some r)). reflexivity.
-      * cbn -[gen_worker_run_loop1]. rewrite interp_vis, (run_next exec KGet) by reflexivity. cbn [kind_of_query].
+           cbn -[gen_worker_run_loop1 obs mobs]. rewrite (IH r2 ltac:(lia) (Some r)). reflexivity.
+      * cbn -[gen_worker_run_loop1 obs mobs]. rewrite interp_vis, (run_next exec KGet) by reflexivity. cbn [kind_of_query].
         destruct (next_of KGet r1) as [[a3 r3]|] eqn:E3; [|reflexivity].
-        kind_of E3; cbn -[gen_worker_run_loop1].
+        kind_of E3; cbn -[gen_worker_run_loop1 obs mobs].
         ++ rewrite (IH r3 ltac:(lia) (Some (exec j))). reflexivity.
         ++ rewrite (IH r3 ltac:(lia) None). reflexivity.
         ++ rewrite interp_act, interp_done. rewrite (run_exit exec r3 _ true) by reflexivity. reflexivity.
@@ -112,7 +112,7 @@ Qed.
 
 (* the translated WorkerProcess.run = Model.Worker.run on every script *)
 Theorem gen_worker_run_ok exec script :
-  obs gen_worker_run_ix_result (interp script (gen_worker_run exec (S (length script))) (mkg [] [] 0))
+  obs gen_worker_run_ix_pending (interp script (gen_worker_run exec (S (length script))) (mkg [] [] 0))
   = mobs (run exec true script).
 Proof. exact (loop_equiv exec (length script) script (le_n _) None [] []). Qed.
 
@@ -125,14 +125,14 @@ Notation opt_list := WorkerP.opt_list.
 Lemma code_fields exec script :
   let pg := run_code exec script in let s := run exec true script in
   prog_code (fst pg) (snd pg) = pc_code (pc s) /\ g_sb (snd pg) = sentinel_back s /\
-  prog_pending gen_worker_run_ix_result (fst pg) = pending s /\ g_taken (snd pg) = taken s /\ g_acc (snd pg) = accepted s.
+  prog_pending gen_worker_run_ix_pending (fst pg) = pending s /\ g_taken (snd pg) = taken s /\ g_acc (snd pg) = accepted s.
 Proof.
   cbn zeta. pose proof (gen_worker_run_ok exec script) as H. unfold obs, mobs in H. fold (run_code exec script) in H.
   inversion H. repeat split; assumption.
 Qed.
 
 Theorem code_safety exec script : let pg := run_code exec script in
-  g_acc (snd pg) ++ opt_list (prog_pending gen_worker_run_ix_result (fst pg)) = map exec (g_taken (snd pg)).
+  g_acc (snd pg) ++ opt_list (prog_pending gen_worker_run_ix_pending (fst pg)) = map exec (g_taken (snd pg)).
 Proof.
   cbn zeta. destruct (code_fields exec script) as (_ & _ & Hp & Ht & Ha). rewrite Hp, Ht, Ha.
   exact (WorkerP.c20_safety exec script).
